@@ -481,8 +481,12 @@ func (c *Client) Mail(from string, opts *MailOptions) error {
 		}
 		// We can safely discard parameter if server does not support AUTH.
 	}
-	_, _, err := c.cmd(250, "%s", sb.String())
-	return err
+	if _, _, err := c.cmd(250, "%s", sb.String()); err != nil {
+		return err
+	}
+	// A new transaction starts without recipients.
+	c.rcpts = nil
+	return nil
 }
 
 // Rcpt issues a RCPT command to the server using the provided email address.
